@@ -49,7 +49,7 @@ def violations(pid, overrides):
     try:
         importlib.import_module(f'rules.{pid.lower()}').run(chk)
     except core.AnalysisError as e:
-        return {'ANALYSIS-ERROR: ' + str(e)[:80]}
+        return {o['key'] for o in chk.obs if not o['ok']} | {'ANALYSIS-ERROR: ' + str(e)[:80]}
     except Exception as e:
         return {'ANALYSIS-ERROR: internal ' + repr(e)[:80]}
     return {o['key'] for o in chk.obs if not o['ok']}
@@ -57,27 +57,34 @@ def violations(pid, overrides):
 ALL = [f'C{i:02d}' for i in range(1, 21)]
 base = {p: violations(p, {}) for p in ALL}
 mutants = []
+pending = []
 
 def consider(name, changes, origin):
-    """changes: [(rel, find, replace)]"""
+    pending.append((name, changes, origin))
+
+def evaluate(job):
+    name, changes, origin = job
     ov = {}
     for rel, find, rep in changes:
         src = ov.get(rel) or (core.REPO / rel).read_text()
         if src.count(find) != 1:
-            print('skip (context not unique/present):', name, rel); return
+            return ('skip', f'skip (context not unique/present): {name} {rel}')
         ov[rel] = src.replace(find, rep)
     try:
         for rel, s in ov.items():
             compile(s, rel, 'exec')
     except SyntaxError:
-        print('skip (does not compile):', name); return
-    expect = {}
+        return ('skip', f'skip (does not compile): {name}')
+    expect, errors = {}, {}
     for p in ALL:
         v = violations(p, ov) - base[p]
-        if v:
-            expect[p] = sorted(v)[:3]
-    mutants.append({'name': name, 'origin': origin, 'changes': [{'file': r, 'find': f, 'replace': t} for r, f, t in changes], 'expect': sorted(expect), 'sample': {k: v[0][:160] for k, v in expect.items()}})
-    print(f'{name:40s} caught by {sorted(expect) or "-"}')
+        real = sorted(x for x in v if not x.startswith('ANALYSIS-ERROR'))
+        if real:
+            expect[p] = real[:3]
+        elif v:
+            errors[p] = sorted(v)[0]
+    m = {'name': name, 'origin': origin, 'changes': [{'file': r, 'find': f, 'replace': t} for r, f, t in changes], 'expect': sorted(expect), 'sample': {k: v[0][:160] for k, v in expect.items()}, 'analysis_errors': errors}
+    return ('ok', m)
 
 # 1. reverse fix commits
 log = sh("git -C /repo log --format='%h %s' --grep='^fix:'").strip().splitlines()
@@ -93,5 +100,13 @@ for d in sorted(Path('/verif/seeded').iterdir()):
     if pf.exists():
         ch = [(p, old, new) for p, old, new in hunks(pf.read_text()) if '/tests/' not in p]
         consider(f'seed-{d.name}', ch, f'seeded change {d.name}')
+import multiprocessing as mp
+with mp.get_context('fork').Pool(int(os.environ.get('JOBS', '14'))) as pool:
+    for kind, r in pool.imap(evaluate, pending):
+        if kind == 'skip':
+            print(r)
+        else:
+            mutants.append(r)
+            print(f"{r['name']:40s} reported by {r['expect'] or '-'}  (analysis error only: {sorted(r['analysis_errors']) or '-'})")
 Path('/verif/selftest/mutants.json').write_text(json.dumps({'mutants': mutants}, indent=1))
-print(len(mutants), 'mutants;', sum(1 for m in mutants if m['expect']), 'caught')
+print(len(mutants), 'mutants;', sum(1 for m in mutants if m['expect']), 'reported by a real violation')
